@@ -201,3 +201,33 @@ CHECKS["C06"] = {
     ],
     "assumptions": ["the fake server sends exactly one reply per query, echoing the query's ID"],
 }
+
+CHECKS["C16"] = {
+    "title": "A truncated UDP upstream reply is retried over TCP",
+    "level": "fault_enumeration",
+    "level_text": "Generated (query, UDP reply with/without TC and any rcode, TCP leg outcome: distinct reply / reply with TC / error rcode / close / silence until the deadline) against a fake server on one UDP+TCP loopback port; token-carrying replies show which leg produced the returned message, and the TCP log shows whether and with which bytes the TCP leg was used. Enumeration of the fault classes x generated inputs; not a proof.",
+    "level_note": "Real loopback sockets; a UDP query that never reaches the fake server makes the run inconclusive.",
+    "technique": "property-based testing (rapid) over scripted fault outcomes of a fake upstream; token-carrying replies as oracle",
+    "parts": [
+        {"engine": "P", "pkg": "internal/upstream", "tests": [
+            {"run": "TestVfC16Fallback", "quick": 2000, "thorough": 60000, "shards_quick": 8, "shards_thorough": 16},
+        ]},
+    ],
+    "assumptions": ["the upstream is created with NewUpstream(\"udp://127.0.0.1:port\") as the router does"],
+}
+
+CHECKS["C17"] = {
+    "title": "Peers are reached and authenticated exactly as configured",
+    "level": "exploration",
+    "level_text": "Addressing: generated scheme x host form x port x dial_addr combinations; the (network, address) the socket Control callback sees on the first dial (QUIC: the datagram arriving on a harness socket bound to the expected address) must equal a reference table, and SNI / HTTP Host must still derive from the URL host when dial_addr redirects the connection. Authentication: generated certificate situations (valid, wrong name, unknown CA, expired, self-signed, absent) x TLS options against the real binary for upstream and listener kinds. Exploration.",
+    "level_note": "Domain names resolve through a harness DNS server installed as net.DefaultResolver in the test process; 'system roots by default' is only testable in the negative direction offline.",
+    "technique": "property-based testing (rapid): reference table differential for dial targets; generated certificate matrix end to end",
+    "parts": [
+        {"engine": "P", "pkg": "internal/upstream", "tests": [
+            {"run": "TestVfC17DialTarget", "quick": 4000, "thorough": 200000, "shards_quick": 4, "shards_thorough": 16},
+            {"run": "TestVfC17QuicTarget", "quick": 60, "thorough": 1500, "shards_quick": 1, "shards_thorough": 1, "exclusive": True},
+            {"run": "TestVfC17ServerName", "quick": 200, "thorough": 4000, "shards_quick": 2, "shards_thorough": 4},
+        ]},
+    ],
+    "assumptions": ["IPv6 zones are not generated; ports 853/443 on 127.33-35.x.y and ::1 are bound by the harness for the default-port QUIC cases (skipped when busy)"],
+}
